@@ -16,8 +16,12 @@ import (
 func genC02(t *rapid.T) DynCase {
 	p := dynProfile(true, true)
 	// DNS based backends: a server-template whose size is the number of endpoints, never updated by runtime commands
-	p.GlobalKeys = append(p.GlobalKeys, annChoice{"dns-resolvers", []string{"kubernetes=10.0.0.2:53"}})
+	p.GlobalAlways = map[string]string{"dns-resolvers": "kubernetes=10.0.0.2:53"}
 	p.Ann = append(p.Ann, annChoice{"use-resolver", []string{"kubernetes"}})
+	p.Bundles = append(p.Bundles, annBundle{Name: "resolver", Keys: []annChoice{{"use-resolver", []string{"kubernetes"}}}})
+	if p.BundlePct < 20 {
+		p.BundlePct = 20
+	}
 	p.UnlabeledPods = true
 	h := genDynHistory(t, p, dynKinds, sizeScale(8, 14))
 	c := DynCase{Hist: h}
